@@ -170,6 +170,39 @@ pub fn idiom_fraction(p: usize, q: usize, cnt_h: usize, cnt_d: usize) -> Vec<RCm
     ]
 }
 
+/// push to a never-selected stack `t`, select stack `s` late, then jump back (same label) into code that pops:
+/// the pops after the jump happen on stack `s` although the text "before" the 흑 ran on stack 3
+pub fn idiom_late_select(s: usize, t: usize, heart: char, cond: u8, print_kind: u8) -> Vec<RCmd> {
+    let hs = heart.to_string();
+    let back = match cond % 4 {
+        0 => hs.clone(),
+        1 => format!("?{}", hs),
+        2 => format!("{}!", hs),
+        _ => format!("!{}", hs),
+    };
+    let printer = match print_kind % 3 {
+        0 => c(3, 1, 1),
+        1 => c(1, 1, 1),
+        _ => c(4, 1, 2),
+    };
+    vec![c(0, 1, 1), c(0, 1, 2), ca(1, 1, t, &hs), printer, c(5, 1, s), ca(0, 1, t, &back)]
+}
+
+/// values parked on two stacks above 3, then popped again through a 형 area / the selecting 흑's own area
+pub fn idiom_two_stacks(s: usize, t: usize, a: usize, b: usize, shape: u8) -> Vec<RCmd> {
+    let area = ["?♥?💖", "!♥!💖", "?!♥", "!?💖", "?", "!"][shape as usize % 6];
+    vec![
+        c(0, 1, a),
+        c(1, 1, t),
+        c(0, 1, b),
+        c(0, 1, b + 1),
+        ca(5, 2, s, area),
+        ca(0, 1, a, area),
+        c(5, 1, 3),
+        c(3, 1, 1),
+    ]
+}
+
 pub fn idiom() -> BoxedStrategy<Vec<RCmd>> {
     let hearts = prop::sample::select(vec!['♥', '💖', '💚']);
     prop_oneof![
@@ -177,6 +210,8 @@ pub fn idiom() -> BoxedStrategy<Vec<RCmd>> {
         4 => (0usize..6, 0u8..3).prop_map(|(k, via)| idiom_read(k, via)),
         2 => (1usize..12, 1usize..12).prop_map(|(h, d)| idiom_print(h, d)),
         1 => (1usize..=2).prop_map(idiom_exit),
+        3 => (4usize..=8, 4usize..=8, prop::sample::select(vec!['♥', '💖', '💚']), 0u8..4, 0u8..3).prop_map(|(s, t, h, cnd, pk)| idiom_late_select(s, if t == s { t + 1 } else { t }, h, cnd, pk)),
+        2 => (4usize..=8, 4usize..=8, 0usize..6, 0usize..6, 0u8..6).prop_map(|(s, t, a, b, sh)| idiom_two_stacks(s, if t == s { t + 1 } else { t }, a, b, sh)),
         3 => (1usize..9, 1usize..9, 1usize..3, 0usize..4).prop_map(|(p, q, a, b)| idiom_fraction(p, q, a, b)),
     ]
     .boxed()
